@@ -133,6 +133,7 @@ CHECKS = {
         "quick": {"shards": 16, "rounds": 1, "checks": 250, "timeout": 900},
         "thorough": {"shards": 16, "rounds": 6, "checks": 500, "timeout": 3000},
         "assumptions": [
+            "one component case in six runs its compaction calls under a process file-size limit (RLIMIT_FSIZE 64-4096 bytes), so that writing an output fails like on a full disk; afterwards CleanupObsoleteFiles is called as the background worker does after every cycle; other I/O errors are not injected",
             "generated file sets follow the engine's recency rule: deeper level = older, within level 0 higher sequence/timestamp = newer, no overlap inside deeper levels",
             "crash = process death at compaction/sstable hook sites; 'retire' drops flushed logs through WAL.ManageRetention",
         ],
